@@ -156,6 +156,7 @@ def shard(ctx):
         iso3, options = case
         run_case(ctx, iso3, options, "c05_%d_%d" % (ctx.shard, ctx.evaluations))
     drive(ctx, strategy(), body, 110 if thorough else 7, shrink=False, tag="runs")
+    model.run_fixed(ctx, model.extreme_cases(), lambda iso, o, k: (ctx.count(), run_case(ctx, iso, o, "c05x_%s" % iso)))
     if thorough:
         for i, iso in enumerate(model.iso3_list()):
             if i % ctx.nshards != ctx.shard:
